@@ -247,3 +247,9 @@ def _returned(body, op):
 
 # sensitivity pack (thorough tier): each seeded edit must be reported by the named rule instance
 MUTANTS = [{'name': 'seeded-C08-a', 'patch': 'C08-a/patch.diff', 'expect': ('R8.1', 'index_runes', 'added to burned')}]
+
+
+# behaviour-preserving pack (thorough tier)
+NEUTRAL = [
+  {'name': 'cenotaph burn loop: element renamed', 'file': 'src/index/updater/rune_updater.rs', 'old': '      for (id, balance) in unallocated {\n        *burned.entry(id).or_default() += balance;\n      }\n    } else {', 'new': '      for (id, left) in unallocated {\n        *burned.entry(id).or_default() += left;\n      }\n    } else {'},
+]
